@@ -10,8 +10,8 @@ VERIF = os.path.dirname(HERE)
 
 NOTE = ("Trusted base: Lean 4.33 kernel, Mathlib v4.33 single modules, axioms propext/Classical.choice/Quot.sound only "
         "(audited with #print axioms on every run; no sorry/admit/native_decide/bv_decide/own axioms); the translator "
-        "tools/gen_from_source.py with tools/cxx2lean.py and tools/gen_{solver,main,run,init}_code.py (syntax-directed: one structure update per "
-        "assignment, one left fold per loop; statement table for Solver::run; statements before/after the translated loops pinned literally); "
+        "tools/gen_from_source.py with tools/cxx2lean.py and tools/gen_{solver,main,run,init,graph,cli,utils,writer}_code.py (syntax-directed: one structure update per "
+        "assignment, one left fold per loop; statement tables for Solver::run, graph.hpp, the tail of multitensor_factorization and main of the command line; statements before/after the translated loops pinned literally); "
         "the C++ harness and the Python comparison/monitor code; theorems are over the model at R, "
         "the code and the correspondence run at IEEE double; boost adjacency_list ordering, std::map/set, libstdc++ "
         "mt19937/uniform_real_distribution and glibc log are modelled, not verified.")
@@ -77,6 +77,25 @@ P = {
             "Lean 4 proof (decide over dispatch tables regenerated from the source by the translator)", "7 C19"),
 }
 
+# additions since the table above was written (kept separate so that the history of the texts stays readable)
+EXTRA = {
+    "C02": " Histories: one Solver object run on a network and then on a rewiring of it (same N, L, E) must end where a fresh one ends.",
+    "C03": " The whole of multitensor_factorization (mainCode) is translated and proved equal to factorizeWith.",
+    "C04": " Histories: one generator object handed to two successive calls (harness op runshared); the parameter lists of the entry point (generator by value) and of Solver::run are pinned.",
+    "C05": " Scripted words for 2-4 realizations in one call (a realization's first likelihood often equals the previous one's last).",
+    "C07": " Histories also with one generator object across calls, with rewired networks through one Solver object, with the caller's label vector pre-filled; edge lists of all harness calls live in one set of buffers refilled in place.",
+    "C08": " Second tie (translator): graph.hpp (add_vertex, the Network constructor, extract_vertices_with_edges / _labels) is regenerated through a statement table and proved equal to the declarative build (MTProofs/CodeRefineGraph, MTProps/CodeGraph).",
+    "C11": " Second tie (translator): graph.hpp regenerated and proved equal to the declarative build (undirected: in-lists empty, one shared list). The second run of every pair hands the in-membership container in another shape (K x N, N*K x 1, empty, one row too many).",
+    "C12": " Second tie (translator): graph.hpp and the whole of multitensor_factorization regenerated and proved equal to build / factorizeWith (code_relabel). The caller's label vector arrives empty, partly right, too long or stale.",
+    "C13": " Second tie (translator): main of multitensor.cpp regenerated through a statement table and proved equal to cliMain (cliMainCode_eq); the three writers translated statement by statement at token level and proved equal to writeAffinity / writeMembership / writeInfo, with the line and column where an entry lands (MTProps/CodeWriters). Files with 64-bit labels; histories of invocations in one directory (input replaced in place, same size and time stamp).",
+    "C14": " The from-file initialiser also called directly on scripted draws, several calls on one functor object, full tensors with unequal mirrored entries (harness op initf).",
+    "C15": " The whole of multitensor_factorization and main of the command line are translated (code_reject). Edge lists of all harness calls live in one set of buffers refilled in place; crashes that need earlier calls are replayed with their shortest history.",
+    "C16": " A third of the valid-input runs hand the in-membership container in other shapes (some with exactly N*K elements), a pre-filled label vector and 1-3 realizations.",
+    "C17": " The initialisers also called directly on a scripted stream of draws (values at and below 1e-6, zero, next to one), several calls on one generator (harness op initf), closed form checked per entry.",
+    "C18": " The from-file initialiser as a user of the layout: called 2-3 times on one functor object with a full tensor whose mirrored entries differ; the reader and writers through position-encoding files.",
+    "C19": " The statements before and after the dispatch are pinned; when that pin breaks, vlib/pyxsim.py runs the prologue (rewritten to plain Python, numpy stand-in) on 3 files x 16 argument combinations and compares what the guards would see with what the caller passed.",
+}
+
 
 def main():
     commits = subprocess.run(["git", "-C", "/repo", "log", "--format=%h %s"], stdout=subprocess.PIPE, text=True).stdout.splitlines()
@@ -84,6 +103,7 @@ def main():
     checks = []
     for pid in sorted(P):
         text, tech, ref = P[pid]
+        text += EXTRA.get(pid, "")
         checks.append({
             "property_id": pid,
             "quick_cmd": "python3 check.py %s --tier quick" % pid,
